@@ -156,6 +156,8 @@ func runC18(r *Report) {
 	c18R1(r)
 	c18R2(r)
 	c18R3(r)
+	// the global defaults of the switches come from the command line: nothing may freeze them at package initialisation
+	c08FlagsAtInit(r, "R4")
 	_ = p
 }
 
